@@ -12,8 +12,8 @@ TECHNIQUE = ('per-entry contribution rule on MIR paths: loop iterators are resol
              'event of a kernel is evaluated to a polynomial and compared with the dense definition; decision tables for the alpha / beta fast paths')
 EXPLANATION = (
     "Partial claim. Equality with the dense result for every matrix is a statement about loops over runtime index arrays and is NOT decided "
-    "as such; nor are construction from triplets, canonicalisation, transpose, select_rows "
-    "(its per-column bookkeeping is C09.R7), set_entry, dropzeros and the entry placement inside the concatenations (fill_block / colcount_block: C11.R1 count = fill). Decided on the MIR of the current tree, for the "
+    "as such; nor are the sort of the triplets, canonicalisation, "
+    "(its per-column bookkeeping is C09.R7). Decided on the MIR of the current tree, for the "
     "kernels every residual, KKT product, norm and scaling goes through, is the *entry-wise meaning*: with the loop iterators resolved to a column "
     "j, a stored entry k of that column (k in colptr[j]..colptr[j+1]) and its row r = rowval[k], value v = nzval[k], (R1) gemv N adds "
     "a v x[j] to y[r], gemv T adds a v x[r] to y[j], after y := b y, on each of the a = 1 / a = -1 / general and b = 0 / 1 / -1 / general fast "
@@ -25,7 +25,12 @@ EXPLANATION = (
     "gemv / symv / quad_form to these kernels with unchanged arguments; (R7) to_triu keeps, per column, the leading entries with row <= col - the count pass and "
     "the copy pass use the same count, rows and values are copied over identical ranges, the new colptr is the cumulative sum - is_triu rejects any row > col and "
     "index_to_coord inverts colptr; (R8) check_format returns Ok exactly when check_dimensions passes, every column has strictly increasing rows and every row is < m; (R9) in blockdiag / hvcat a row cursor is advanced only by nrows(block), a column cursor only by ncols(block), spalloc receives the matching sums, "
-    "and count and fill pass agree. Every inner loop must be the entry range of the *same* column the outer "
+    "and count and fill pass agree; (R10) fill_block places entry (r, j, v) of a block at (r + initrow, j + initcol) for shape N and (j + initrow, r + initcol) for shape T, "
+    "with its value and map entry at the column's fill pointer, colcount_block counts exactly those destination columns, and the concrete transpose is count T / fill T "
+    "into an n x m allocation; (R11) dropzeros keeps an entry iff its value != 0, moves value and row together to the write cursor, reads the old column end before overwriting it and "
+    "truncates both arrays to the cursor; (R12) select_rows (C09.R7 re-run); (R13) new_from_triplets accumulates duplicates into the entry at the write cursor, moves new entries row and value together and "
+    "permutes rows and values with the same sort permutation; (R14) set_entry inserts row and value at the sorted position, overwrites there if present and "
+    "rebuilds the pointers with one more entry in that column, get_entry reads at first + the binary-search index. Every inner loop must be the entry range of the *same* column the outer "
     "loop is at: an iterator that is not recognised as such leaves a raw term and the comparison fails closed.")
 ASSUMPTIONS = ['rustc MIR construction and trait resolution are correct',
                'the matrix is canonical (colptr monotone, rows in range): what check_format establishes',
@@ -106,6 +111,10 @@ def normalise(v, M):
         m = re.fullmatch(r'zip\(%s\.(\w+), %s\.(\w+)\)' % (re.escape(M), re.escape(M)), X)
         if m:
             v = v.replace(elem + '.0', '%s.%s[k]' % (M, m.group(1))).replace(elem + '.1', '%s.%s[k]' % (M, m.group(2))).replace(whole, 'NEXT')
+            continue
+        m = re.fullmatch(r'iter(?:_mut)?\(%s\.(\w+)\)' % re.escape(M), X)
+        if m:
+            v = v.replace(elem, '%s.%s[k]' % (M, m.group(1))).replace(whole, 'NEXT')
             continue
         v = v.replace(whole, 'RAW{%s}' % X.replace('next(into_iter(', 'nx('))
     return v
@@ -549,8 +558,8 @@ def routing(rep, F, tag):
 # R7: triangle extraction / test, linear index -> coordinates
 # ---------------------------------------------------------------------------
 
-def triangle(rep, F, tag):
-    R = rep.rule('C16.R7', 'to_triu keeps, per column, the leading entries with row <= col (count pass = copy pass, rowval and nzval copied over identical ranges); is_triu rejects any row > col; index_to_coord inverts colptr')
+def triangle(rep, F, tag, rid='C16.R7'):
+    R = rep.rule(rid, 'to_triu keeps, per column, the leading entries with row <= col (count pass = copy pass, rowval and nzval copied over identical ranges); is_triu rejects any row > col; index_to_coord inverts colptr')
 
     def body():
         f = F.one(name='to_triu', adt='CscMatrix')
@@ -577,6 +586,16 @@ def triangle(rep, F, tag):
                 ['index_mut(from_elem(zero(), var:nnz), %s)' % dst_rng, 'index(self.nzval, %s)' % src_rng]]
         R.check(sorted(got) == sorted(want), 'to_triu|copy-ranges' + tag,
                 'to_triu copies %s; expected rows and values of the leading `count` entries of column j into [colptr_new[j], colptr_new[j] + count)' % [[x[:110] for x in g] for g in got], f.loc())
+        # every pass of the copy loop turns the column's count into the cumulative pointer - also for a column that keeps no entry
+        loops = f.loops()
+        closers = [bi for bi, si, st in f.assignments() if st['p']['p'] and st['p']['l'] != 0 and nz(canon(f.sym_place(st['p']))) == tgt and nz(canon(f.sym_rvalue(st['rv']))) == ldest]
+        if R.check(len(closers) == 1, 'to_triu|closing-store' + tag, 'to_triu has %d statements colptr[j+1] = colptr[j] + count' % len(closers), f.loc()):
+            inner = [h_ for h_, b_ in loops.items() if closers[0] in b_]
+            h_ = min(inner, key=lambda x: len(loops[x])) if inner else None
+            passes = [l for l in Walker(f, cut_loops=True).leaves(start=h_) if l[1][0] == 'cut' and l[1][1] == h_ and all(b_ in loops[h_] or b_ == h_ for b_ in l[3])] if h_ is not None else []
+            R.check(bool(passes) and all(closers[0] in l[3] for l in passes), 'to_triu|every-column-closed' + tag,
+                    'some pass of the copy loop of to_triu skips colptr[j+1] = colptr[j] + count (e.g. a shortcut for columns that keep no entry): the new colptr is then not cumulative '
+                    'and the constructor of the result asserts / the matrix is malformed', f.loc())
         g = F.one(name='is_triu', adt='CscMatrix')
         cl = F.closures_of.get(g.key, [])
         R.check(len(cl) == 1 and canon(cl[0].sym_local(0)) in ('lt(arg1._ref__col, arg2)', 'lt(arg1.col, arg2)'), 'is_triu|test' + tag,
@@ -694,6 +713,26 @@ def concatenation(rep, F, tag):
                     n += 1
                     R.check(ok, 'cursor-unit|%s|%s%s' % (nm, name, tag),
                             '%s: the %s cursor %s is updated by %s; it may only be reset to 0 or advanced by %s(<block>)' % (nm, {'row': 'row', 'col': 'column', 'nnz': 'entry-count'}[r_], name, v[:100], unit[r_]), f.loc(st['sp']))
+            # ... and on *every* pass of the loop that owns the cursor (an all-zero block still occupies its rows / columns)
+            loops = f.loops()
+            pass_cache = {}
+            for var, rs in sorted(curs.items()):
+                name = var[4:]
+                for bi, si, st in f.assignments():
+                    if st['p']['p'] or f.local_name(st['p']['l']) != name or nz(canon(f.sym_rvalue(st['rv']))) == '0_usize':
+                        continue
+                    inner = [h for h, body_ in loops.items() if bi in body_]
+                    if not inner:
+                        continue
+                    h = min(inner, key=lambda x: len(loops[x]))
+                    if h not in pass_cache:
+                        # one full pass of that loop: from its header back to its header (the walk is started at the header because two
+                        # loops over the same range share their iterator atom when walked from the function entry)
+                        pass_cache[h] = [l for l in Walker(f, cut_loops=True).leaves(start=h) if l[1][0] == 'cut' and l[1][1] == h and all(b_ in loops[h] or b_ == h for b_ in l[3])]
+                    passes = pass_cache[h]
+                    R.check(bool(passes) and all(bi in l[3] for l in passes), 'cursor-every-pass|%s|%s%s' % (nm, name, tag),
+                            '%s: some pass of the loop that places the blocks does not advance the %s cursor %s (e.g. a shortcut for blocks without stored entries): the following '
+                            'blocks land on the wrong %s' % (nm, 'row' if 'row' in rs else 'column', name, 'rows' if 'row' in rs else 'columns'), f.loc(st['sp']))
             flags = set(nz(canon(f.sym_operand(c.args[-1]))) for c in f.calls if c.callee.name in ('fill_block', 'colcount_block'))
             R.check(len(flags) == 1, 'same-shape|%s%s' % (nm, tag), '%s: count and fill pass use shape flags %s' % (nm, sorted(flags)), f.loc())
             ctc, bsc = calls_named(f, 'colcount_to_colptr'), calls_named(f, 'backshift_colptrs')
@@ -703,6 +742,251 @@ def concatenation(rep, F, tag):
                   and all(not f.dominates(bsc[0].bb, c.bb) for c in fbs) and f.dominates(ctc[0].bb, bsc[0].bb))
             R.check(ok, 'passes|%s%s' % (nm, tag), '%s does not run count pass -> colcount_to_colptr -> fill pass -> backshift_colptrs in that order' % nm, f.loc())
         R.check(n >= 8, 'count' + tag, 'only %d cursor updates analysed' % n)
+
+    R.guard(body)
+
+
+# ---------------------------------------------------------------------------
+# R10: block placement utilities (transpose, concatenation, KKT assembly all go through them)
+# ---------------------------------------------------------------------------
+
+def block_placement(rep, F, tag, rid='C16.R10'):
+    """fill_block copies a matrix M into a larger one at (initrow, initcol), optionally transposed; colcount_block counts where its entries
+    will go.  Entry k of column j of M (row r = M.rowval[k]) lands at (r + initrow, j + initcol) for shape N and at (j + initrow, r + initcol)
+    for shape T; it is written at the column's current fill pointer together with its value and its map entry, and the pointer
+    advances by one.  The count pass adds, per destination column, exactly the number of entries the fill pass will put there."""
+    R = rep.rule(rid, 'fill_block / colcount_block: entry (r, j, v) of M goes to (r + initrow, j + initcol) (N) or (j + initrow, r + initcol) (T) with its value and map entry; count pass = fill pass per destination column')
+
+    def body():
+        f = F.one(name='fill_block', adt='CscMatrix')
+        shapes = [v['n'] for v in F.adt('MatrixShape')['variants']]
+        nz = lambda t: normalise(t, 'arg2')
+        seen = {}
+        for val, ret, ev, tr in Walker(f, cut_loops=True, local_stores=True).leaves():
+            d = [v for k, v in val.items() if k == 'discr(arg6)']
+            stores = [(nz(str(e[1])), nz(str(e[2]))) for e in ev if e[0] == 'store']
+            if not d or not stores or d[0] >= len(shapes):
+                continue
+            loc = {}
+            for e in ev:
+                if e[0] == 'assign' and e[1] in ('col', 'row') and isinstance(e[4], dict):
+                    loc[e[1]] = nz(canon(f.sym_rvalue(e[4]['rv'])))
+            seen[shapes[d[0]]] = (loc, stores)
+        want_loc = {'N': {'col': {'add(j, arg5)', 'add(arg5, j)'}, 'row': {'add(arg2.rowval[k], arg4)', 'add(arg4, arg2.rowval[k])'}},
+                    'T': {'col': {'add(arg2.rowval[k], arg5)', 'add(arg5, arg2.rowval[k])'}, 'row': {'add(j, arg4)', 'add(arg4, j)'}}}
+        for sh in ('N', 'T'):
+            if not R.check(sh in seen, 'fill|%s|path%s' % (sh, tag), 'no fill path for shape %s analysed' % sh, f.loc()):
+                continue
+            loc, stores = seen[sh]
+            R.check(loc.get('col') in want_loc[sh]['col'] and loc.get('row') in want_loc[sh]['row'], 'fill|%s|coordinates%s' % (sh, tag),
+                    'fill_block (shape %s) places an entry at row %s, column %s; expected %s' % (sh, loc.get('row'), loc.get('col'),
+                                                                                                 '(rowval[k] + initrow, j + initcol)' if sh == 'N' else '(j + initrow, rowval[k] + initcol)'), f.loc())
+            st = dict(stores)
+            P = 'self.colptr[var:col]'
+            rowv = st.get('self.rowval[%s]' % P)
+            order = [t for t, v in stores]
+            ok = (rowv in want_loc[sh]['row'] | {'var:row'} and st.get('self.nzval[%s]' % P) == 'arg2.nzval[k]' and st.get('arg3[k]') == P
+                  and st.get(P) in ('add(%s, 1_usize)' % P,) and order and order[-1] == P)
+            # (the fill pointer is advanced last: the three writes above use its value before the increment)
+            R.check(ok, 'fill|%s|stores%s' % (sh, tag),
+                    'fill_block (shape %s) stores %s; expected rowval[dest] = row, nzval[dest] = M.nzval[k], map[k] = dest, colptr[col] += 1 with dest = colptr[col]' % (sh, sorted(st.items())[:5]), f.loc())
+        g = F.one(name='colcount_block', adt='CscMatrix')
+        cseen = {}
+        for val, ret, ev, tr in Walker(g, cut_loops=True, local_stores=True).leaves():
+            d = [v for k, v in val.items() if k == 'discr(arg4)']
+            stores = [(nz(str(e[1])), nz(str(e[2]))) for e in ev if e[0] == 'store']
+            if d and stores and d[0] < len(shapes):
+                cseen[shapes[d[0]]] = stores
+        wantc = {'N': {('self.colptr[add(arg3, j)]', 'add(self.colptr[add(arg3, j)], sub(arg2.colptr[add(j, 1_usize)], arg2.colptr[j]))'),
+                       ('self.colptr[add(j, arg3)]', 'add(self.colptr[add(j, arg3)], sub(arg2.colptr[add(j, 1_usize)], arg2.colptr[j]))')},
+                 'T': {('self.colptr[add(arg3, arg2.rowval[k])]', 'add(self.colptr[add(arg3, arg2.rowval[k])], 1_usize)'),
+                       ('self.colptr[add(arg2.rowval[k], arg3)]', 'add(self.colptr[add(arg2.rowval[k], arg3)], 1_usize)')}}
+        for sh in ('N', 'T'):
+            got = cseen.get(sh, [])
+            R.check(len(got) == 1 and got[0] in wantc[sh], 'count|%s%s' % (sh, tag),
+                    'colcount_block (shape %s) performs %s; expected colptr[initcol + %s] += %s' % (sh, got[:2], 'j' if sh == 'N' else 'rowval[k]', '#entries of column j' if sh == 'N' else '1'), g.loc())
+        # transpose = count T, cumulate, fill T, backshift
+        tr_ = [h for h in F.fns if h.name == 'from' and h.file.endswith('csc/core.rs') and calls_named(h, 'fill_block')]
+        if R.check(len(tr_) == 1, 'transpose|anchor' + tag, 'From<Adjoint<CscMatrix>> matched %d functions' % len(tr_)):
+            h = tr_[0]
+            seq = [(c.callee.name, [canon(h.sym_operand(a)) for a in c.args][(0 if c.callee.name == 'spalloc' else 1):]) for c in h.calls if c.callee.name in ('colcount_block', 'colcount_to_colptr', 'fill_block', 'backshift_colptrs', 'spalloc')]
+            names = [x[0] for x in seq]
+            flags = [a[-1] for n_, a in seq if n_ in ('colcount_block', 'fill_block')]
+            R.check(sorted(names) == sorted(['spalloc', 'colcount_block', 'colcount_to_colptr', 'fill_block', 'backshift_colptrs']) and all(x.endswith('::T') for x in flags)
+                    and [a for n_, a in seq if n_ == 'spalloc'][0][0] == 'tuple(arg1.src.n, arg1.src.m)', 'transpose|steps' + tag,
+                    'the concrete transpose performs %s; expected an (n x m) allocation and count / fill with shape T at offset (0, 0)' % seq, h.loc())
+
+    R.guard(body)
+
+
+# ---------------------------------------------------------------------------
+# R11: dropzeros
+# ---------------------------------------------------------------------------
+
+def drop_zeros(rep, F, tag):
+    """dropzeros compacts the stored entries in place: an entry is kept iff its value != 0; a kept entry moves, value *and* row together, to the
+    write cursor, which then advances by one; a dropped entry moves nothing.  At the end of a column the old end pointer is read (it is
+    the next column's start) *before* it is overwritten with the write cursor; finally both arrays are truncated to the cursor."""
+    R = rep.rule('C16.R11', 'dropzeros: kept iff value != 0; value and row move together to the write cursor; old column end read before it is overwritten; both arrays truncated to the cursor')
+
+    def body():
+        f = F.one(name='dropzeros', adt='CscMatrix')
+        nzt = lambda t: t.replace('withoverflow', '').replace(').0', ')')
+        J = 'next(into_iter(Range::Range(0_usize, ncols(self))))@Some.0'
+        END = 'index(self.colptr, add(%s, 1_usize))' % J
+        RD = 'next(into_iter(Range::Range(var:first, %s)))@Some.0' % END
+        seen = set()
+        for val, ret, ev, tr in Walker(f, cut_loops=True, local_stores=True).leaves():
+            if ret[0] == 'diverge':
+                continue
+            v = {nzt(k): x for k, x in val.items()}
+            keep = [x for k, x in v.items() if k in ('ne(index(self.nzval, %s), zero())' % RD, 'ne(zero(), index(self.nzval, %s))' % RD)] + \
+                   [1 - x for k, x in v.items() if k in ('eq(index(self.nzval, %s), zero())' % RD, 'eq(zero(), index(self.nzval, %s))' % RD)]
+            moved = [x for k, x in v.items() if k in ('ne(var:writeidx, %s)' % RD, 'ne(%s, var:writeidx)' % RD)]
+            stores = [(nzt(str(e[1])), nzt(str(e[2]))) for e in ev if e[0] == 'store']
+            incs = [nzt(canon(f.sym_rvalue(e[4]['rv']))) for e in ev if e[0] == 'assign' and e[1] == 'writeidx' and isinstance(e[4], dict)]
+            incs = [x for x in incs if x != '0_usize']
+            if keep:
+                if keep[0] == 1:
+                    seen.add('keep')
+                    R.check(incs == ['add(var:writeidx, 1_usize)'], 'kept-advances' + tag, 'a kept entry advances the write cursor by %s' % incs, f.loc())
+                    want = [('index_mut(self.nzval, var:writeidx)', 'index(self.nzval, %s)' % RD), ('index_mut(self.rowval, var:writeidx)', 'index(self.rowval, %s)' % RD)]
+                    if moved and moved[0] == 1:
+                        seen.add('move')
+                        R.check(sorted(stores) == sorted(want), 'kept-moves-both' + tag, 'a kept entry that has to move performs %s, expected value and row copied from the read position to the write cursor' % stores, f.loc())
+                    else:
+                        R.check(not stores or sorted(stores) == sorted(want), 'kept-in-place' + tag, 'a kept entry already in place performs %s' % stores, f.loc())
+                else:
+                    seen.add('drop')
+                    R.check(not stores and not incs, 'dropped-untouched' + tag, 'a zero entry performs %s and advances the cursor by %s' % (stores, incs), f.loc())
+            elif any(t == 'index_mut(self.colptr, add(%s, 1_usize))' % J for t, x in stores):
+                seen.add('close')
+                names = []
+                for e in ev:
+                    if e[0] == 'assign' and e[1] == 'first' and isinstance(e[4], dict) and nzt(canon(f.sym_rvalue(e[4]['rv']))) == END:
+                        names.append('read-end')
+                    if e[0] == 'store' and nzt(str(e[1])) == 'index_mut(self.colptr, add(%s, 1_usize))' % J:
+                        names.append('write-end')
+                R.check(names == ['read-end', 'write-end'], 'column-close-order' + tag,
+                        'at the end of a column dropzeros performs %s; the old end pointer must be saved as the next column\'s start before it is overwritten with the write cursor' % names, f.loc())
+                R.check(any(t == 'index_mut(self.colptr, add(%s, 1_usize))' % J and str(x) in ('var:writeidx', '0') for t, x in stores), 'column-end-is-cursor' + tag, 'the new column end is %s' % stores, f.loc())
+            if ret[0] == 's':
+                rs = [nzt(str(e[2])) for e in ev if e[0] == 'call' and e[1] == 'resize']
+                seen.add('exit')
+                R.check(sorted(x.rsplit(',', 1)[0] for x in rs) == ['resize(self.nzval, var:writeidx', 'resize(self.rowval, var:writeidx'], 'truncate' + tag, 'dropzeros ends with %s' % rs, f.loc())
+        R.check({'keep', 'move', 'drop', 'close', 'exit'} <= seen, 'cases' + tag, 'dropzeros cases analysed: %s' % sorted(seen), f.loc())
+
+    R.guard(body)
+
+
+# ---------------------------------------------------------------------------
+# R13: consolidation of duplicate triplets
+# ---------------------------------------------------------------------------
+
+def triplet_consolidation(rep, F, tag):
+    """new_from_triplets sorts the triplets by (column, row) and then consolidates runs of equal coordinates in place with a read and a
+    write cursor.  One pass of the consolidation loop: a first-of-column or new-row entry is moved (row and value together) to the
+    write cursor and both cursors advance; a repeated coordinate is *added to the entry just written* (nzval[writeidx-1] +=
+    nzval[readidx]), the column count drops by one and only the read cursor advances.  Summing from the read side instead
+    (nzval[readidx-1]) is right for pairs and loses values for runs of three or more."""
+    R = rep.rule('C16.R13', 'new_from_triplets: duplicates are accumulated into the entry at the write cursor; new entries move row and value together; cursors advance as documented')
+
+    def body():
+        f = F.one(name='new_from_triplets', adt='CscMatrix')
+        loops = f.loops()
+        inc = [bi for bi, si, st in f.assignments() if not st['p']['p'] and f.local_name(st['p']['l']) == 'readidx' and 'add' in canon(f.sym_rvalue(st['rv']))]
+        cands = [h for h, b in loops.items() if inc and all(x in b for x in inc)]
+        if not cands:
+            raise AnchorError('consolidation loop of new_from_triplets not found')
+        h = min(cands, key=lambda x: len(loops[x]))
+        nz = lambda t: t.replace('withoverflow', '').replace(').0', ')').replace('spalloc(tuple(arg1, arg2), len(arg5))', 'M')
+        seen = set()
+        for val, ret, ev, tr in Walker(f, cut_loops=True, local_stores=True).leaves(start=h):
+            if not (ret[0] == 'cut' and ret[1] == h and all(b in loops[h] or b == h for b in tr)):
+                continue
+            v = {nz(k): x for k, x in val.items()}
+            first = [x for k, x in v.items() if k.startswith('eq(0_usize, next(into_iter(Range::Range(0_usize, index(M.colptr')]
+            newrow = [x for k, x in v.items() if k in ('ne(index(M.rowval, sub(var:readidx, 1_usize)), index(M.rowval, var:readidx))', 'ne(index(M.rowval, var:readidx), index(M.rowval, sub(var:readidx, 1_usize)))')]
+            stores = sorted((nz(str(e[1])), nz(str(e[2]))) for e in ev if e[0] == 'store')
+            ups = {}
+            for e in ev:
+                if e[0] == 'assign' and e[1] in ('readidx', 'writeidx') and isinstance(e[4], dict):
+                    ups.setdefault(e[1], []).append(nz(canon(f.sym_rvalue(e[4]['rv']))))
+            fresh = (first and first[0] == 1) or (newrow and newrow[0] == 1)
+            if not first:
+                continue
+            if fresh:
+                seen.add('fresh')
+                moved = [x for k, x in v.items() if k in ('ne(var:readidx, var:writeidx)', 'ne(var:writeidx, var:readidx)')]
+                want = sorted([('index_mut(M.rowval, var:writeidx)', 'index(M.rowval, var:readidx)'), ('index_mut(M.nzval, var:writeidx)', 'index(M.nzval, var:readidx)')])
+                R.check((stores == want) if (moved and moved[0] == 1) else (stores in ([], want)), 'fresh-entry-moves' + tag, 'a new (row, column) entry performs %s' % stores, f.loc())
+                R.check(ups == {'writeidx': ['add(var:writeidx, 1_usize)'], 'readidx': ['add(var:readidx, 1_usize)']}, 'fresh-entry-cursors' + tag, 'a new entry updates the cursors by %s' % ups, f.loc())
+            elif newrow and newrow[0] == 0:
+                seen.add('duplicate')
+                acc = [(t, x) for t, x in stores if t.startswith('index_mut(M.nzval')]
+                ok = acc in ([('index_mut(M.nzval, sub(var:writeidx, 1_usize))', 'add(index(M.nzval, sub(var:writeidx, 1_usize)), index(M.nzval, var:readidx))')],
+                             [('index_mut(M.nzval, sub(var:writeidx, 1_usize))', 'add(index(M.nzval, var:readidx), index(M.nzval, sub(var:writeidx, 1_usize)))')])
+                R.check(ok, 'duplicate-accumulates' + tag,
+                        'a repeated coordinate performs %s; expected nzval[writeidx-1] = nzval[writeidx-1] + nzval[readidx] (the running sum lives at the write cursor: summing from '
+                        'nzval[readidx-1] drops all but the last two values of a run)' % acc, f.loc())
+                cnt = [(t, x) for t, x in stores if t.startswith('index_mut(M.colptr')]
+                R.check(len(cnt) == 1 and cnt[0][1].startswith('sub(') and cnt[0][1].endswith(', 1_usize)'), 'duplicate-count' + tag, 'a repeated coordinate changes the column count by %s' % cnt, f.loc())
+                R.check(ups == {'readidx': ['add(var:readidx, 1_usize)']}, 'duplicate-cursors' + tag, 'a repeated coordinate updates the cursors by %s' % ups, f.loc())
+        R.check(seen == {'fresh', 'duplicate'}, 'cases' + tag, 'consolidation cases analysed: %s' % sorted(seen), f.loc())
+        # the sort key is (column, row) and both arrays are permuted with the same permutation
+        pm = [[canon(f.sym_operand(a)) for a in c.args] for c in f.calls if c.callee.name == 'permute']
+        R.check(len(pm) == 2 and pm[0][2] == pm[1][2] and {nz(pm[0][0]), nz(pm[1][0])} == {'M.rowval', 'M.nzval'} and {pm[0][1], pm[1][1]} == {'arg3', 'arg5'}, 'same-permutation' + tag,
+                'rows and values are permuted by %s' % [[x[:40] for x in p_] for p_ in pm], f.loc())
+
+    R.guard(body)
+
+
+# ---------------------------------------------------------------------------
+# R14: get_entry / set_entry
+# ---------------------------------------------------------------------------
+
+def entry_access(rep, F, tag, rid='C16.R14'):
+    """get_entry finds (row, col) by binary search in the rows of column col: that is only correct while the rows of a column stay sorted.
+    set_entry must therefore insert a new entry at its sorted position first + partition_point(rows < row) - row index and value at the
+    same position - overwrite an existing one at that same position, and rebuild the column pointers with exactly one more entry in
+    that column."""
+    R = rep.rule(rid, 'set_entry inserts row and value at the sorted position first + partition_point(rows < row), overwrites there if present, and bumps that column\'s count; get_entry reads first + index of the binary search')
+
+    def body():
+        f = F.one(name='set_entry', adt='CscMatrix')
+        nz = lambda t: t.replace('withoverflow', '').replace(').0', ')')
+        ROWS = 'index(self.rowval, Range::Range(index(self.colptr, arg2.1), index(self.colptr, add(arg2.1, 1_usize))))'
+        POS = 'add(index(self.colptr, arg2.1), partition_point(%s, closure(arg2.0)))' % ROWS
+        cl = F.closures_of.get(f.key, [])
+        R.check(len(cl) == 1 and nz(canon(cl[0].sym_local(0))) in ('lt(arg2, arg1._ref__row)', 'lt(arg2, arg1.row)'), 'set|partition' + tag,
+                'set_entry partitions the column with %s, expected rows < row' % [canon(c.sym_local(0)) for c in cl], f.loc())
+        ins = [[nz(canon(f.sym_operand(a))) for a in c.args] for c in f.calls if c.callee.name == 'insert']
+        R.check(sorted(ins) == sorted([['self.rowval', POS, 'arg2.0'], ['self.nzval', POS, 'arg3']]), 'set|insert-position' + tag,
+                'set_entry inserts %s; expected rowval.insert(first + i, row) and nzval.insert(first + i, value) with i the sorted position (get_entry relies on sorted columns)' % [[x[:70] for x in a] for a in ins], f.loc())
+        seen = set()
+        for val, ret, ev, tr in Walker(f, cut_loops=True, local_stores=True).leaves():
+            if ret[0] == 'diverge':
+                continue
+            calls = [e[1] for e in ev if e[0] == 'call']
+            stores = [(nz(str(e[1])), nz(str(e[2]))) for e in ev if e[0] == 'store']
+            if 'insert' in calls:
+                seen.add('insert')
+                seqn = [c for c in calls if c in ('colptr_to_colcount', 'colcount_to_colptr')]
+                bump = [t for t, v in stores if t == 'index_mut(self.colptr, arg2.1)']
+                R.check(seqn == ['colptr_to_colcount', 'colcount_to_colptr'] and len(bump) == 1, 'set|rebuild-pointers' + tag,
+                        'after an insertion set_entry performs %s with column-count stores %s' % (seqn, [t for t, v in stores]), f.loc())
+            elif stores:
+                seen.add('overwrite')
+                R.check(stores == [('index_mut(self.nzval, %s)' % POS, 'arg3')], 'set|overwrite-position' + tag, 'an existing entry is overwritten by %s' % stores, f.loc())
+        R.check(seen == {'insert', 'overwrite'}, 'set|cases' + tag, 'set_entry cases analysed: %s' % sorted(seen), f.loc())
+        g = F.one(name='get_entry', adt='CscMatrix')
+        rets = set()
+        for val, ret, ev, tr in Walker(g, cut_loops=True).leaves():
+            if ret[0] == 's':
+                rets.add(nz(str(ret[1])))
+        GROWS = 'index(self.rowval, Range::Range(index(self.colptr, arg2.1), index(self.colptr, add(arg2.1, 1_usize))))'
+        want = {'Option::None', 'Option::Some(index(self.nzval, add(index(self.colptr, arg2.1), binary_search(%s, arg2.0)@Ok.0)))' % GROWS}
+        R.check(rets == want, 'get' + tag, 'get_entry returns %s' % sorted(x[:120] for x in rets), g.loc())
 
     R.guard(body)
 
@@ -719,5 +1003,12 @@ def run(ctx, rep, tier):
         triangle(rep, F, tag)
         format_check(rep, F, tag)
         concatenation(rep, F, tag)
+        block_placement(rep, F, tag)
+        drop_zeros(rep, F, tag)
+        triplet_consolidation(rep, F, tag)
+        entry_access(rep, F, tag)
+    # row selection (presolve): per-column bookkeeping, renumbered rows, rebuilt matrix (C09.R7 re-run)
+    from . import c09, c04
+    c09.row_selection(c04._Ren(rep, 'C09.R7', 'C16.R12'), ctx.facts('default'), '')
     from . import primitives
     primitives.vector_primitives(rep, ctx.facts('default'), ctx.eff('default'), '', 'C16.R6')
